@@ -5,7 +5,8 @@ from suites import run_suite
 
 LEAN_MODULES = ['GoSnaps.Props.C09', 'GoSnaps.Props.C05Clean', 'GoSnaps.Props.Tie.TestID']
 ORACLES = {'C07': [('matched-entries-kept', cw.o_matched_kept)],
-           'C09': [('stale-reported-and-removed-only-in-clean-mode', cw.o_stale_reported)],
+           'C09': [('stale-reported-and-removed-only-in-clean-mode', cw.o_stale_reported),
+                   ('only-obsolete-entries-are-removed', cw.o_matched_kept)],
            'C10': [('rewrite-preserves-sorted-idempotent', cw.o_rewrite_preserves)]}['C09']
 
 
@@ -25,6 +26,7 @@ def run(ctx):
         worlds.append(cw.render('c09-%d' % i, spec, ORACLES))
     for k, (mode, srt) in enumerate([((False, ''), '-'), ((False, 'clean'), '0'), ((False, ''), '1')]):
         worlds.append(cw.render('c09-big-%d' % k, cw.big_clean_spec(g, mode, srt), ORACLES))
+    worlds += [cw.render('c09-tie-%d' % k, sp, ORACLES) for k, sp in enumerate(cw.tie_specs())]
     worlds += cw.junk_worlds('c09')
     run_suite(ctx, 'clean.C09', worlds, known=known, chunk=200)
     findings.report(ctx, 'C09')
